@@ -9,12 +9,9 @@ CONSTANTS
   N = 3
   MaxFaults = %d
   TwoTimeouts = %s
-  Extra = %s
-  Repaired = %s
 INVARIANTS %s
 CHECK_DEADLOCK FALSE
 """
-EXTRA = '{"json503un"}'
 
 
 def sig_of(v):
@@ -26,20 +23,15 @@ def run(ctx, cases_override=None, confirm_pass=False):
     leads = []
     mc_runs = []
     if cases_override is None:
-        # ---- MC: the five loops + error classification |= Doc_C15, exhaustive over the whole table (10^4 cases)
-        mc = ctx.tlc("Failover", "c15_mc.cfg", files={"c15_mc.cfg": CFG % (3, "TRUE", "{}", "FALSE", "Inv_C15 Inv_LoopAgrees")},
-                     workers=8, timeout=1500, tag="mc-listed")
-        # ... and with the answer a real Prometheus gives while its TSDB is not ready (503, errorType=unavailable)
-        mc2 = ctx.tlc("Failover", "c15_mc2.cfg", files={"c15_mc2.cfg": CFG % (3, "TRUE", EXTRA, "FALSE", "Inv_C15 Inv_LoopAgrees")},
-                      workers=8, timeout=1500, tag="mc-extra", allow_violation=True)
-        mc3 = ctx.tlc("Failover", "c15_mc3.cfg", files={"c15_mc3.cfg": CFG % (3, "TRUE", EXTRA, "TRUE", "Inv_C15 Inv_LoopAgrees")},
-                      workers=8, timeout=1500, tag="mc-extra-repaired")
-        mc_runs = [mc, mc2, mc3]
-        if mc2["invariant_violated"]:
-            leads.append("mc-extra:" + mc2["invariant_violated"])
+        # ---- MC: the five loops + error classification |= Doc_C15, exhaustive over the whole table (11^3 x 5 x 2 cases)
+        mc = ctx.tlc("Failover", "c15_mc.cfg", files={"c15_mc.cfg": CFG % (3, "TRUE", "Inv_C15 Inv_LoopAgrees")},
+                     workers=8, timeout=1500, tag="mc", allow_violation=True)
+        mc_runs = [mc]
+        if mc["invariant_violated"]:
+            leads.append("mc:" + mc["invariant_violated"])
         # ---- GEN
         gen = ctx.tlc("Failover", "c15_gen.cfg", workers=4, timeout=1500, tag="gen", files={
-            "c15_gen.cfg": CFG % ((3, "TRUE", EXTRA, "FALSE", "EmitCase") if thorough else (2, "FALSE", EXTRA, "FALSE", "EmitCase"))})
+            "c15_gen.cfg": CFG % ((3, "TRUE", "EmitCase") if thorough else (2, "FALSE", "EmitCase"))})
         cases = [v[0] for v in prints(gen, "CASE")]
         if not cases:
             raise MachineryError("GEN produced no cases")
@@ -57,24 +49,10 @@ def run(ctx, cases_override=None, confirm_pass=False):
     if bad:
         raise MachineryError("phase B did not run the intended check: %s" % json.dumps(bad[0]["b"])[:500])
     # ---- JUDGE
-    TCFG = "SPECIFICATION TraceSpec\nCONSTANTS\n  N = 3\n  MaxFaults = 3\n  TwoTimeouts = TRUE\n  Extra = %s\n  Repaired = %%s\nCHECK_DEADLOCK FALSE\n" % EXTRA
-
-    def judge(repaired):
-        name = "c15_judge_%s.cfg" % repaired
-        r = ctx.tlc("FailoverTrace", name, workers=1, files={"c15_trace.ndjson": tpath, name: TCFG % repaired}, timeout=3000,
-                    heap="6g", tag="judge-" + repaired.lower())
-        done = prints(r, "DONE")
-        if not done or done[0][0] != len(trace):
-            raise MachineryError("JUDGE consumed %s of %d trace records" % (done, len(trace)))
-        return r
-
-    # the impl side of the spec exists in two variants (pinned / with the proposed repair): bind to the one the code follows
-    j = judge("FALSE")
-    variant = "pinned"
-    if prints(j, "DRIFT"):
-        j2 = judge("TRUE")
-        if len(prints(j2, "DRIFT")) < len(prints(j, "DRIFT")):
-            j, variant = j2, "repaired"
+    j = ctx.tlc("FailoverTrace", "FailoverTrace.cfg", workers=1, files={"c15_trace.ndjson": tpath}, timeout=3000, heap="6g", tag="judge")
+    done = prints(j, "DONE")
+    if not done or done[0][0] != len(trace):
+        raise MachineryError("JUDGE consumed %s of %d trace records" % (done, len(trace)))
     by_id = {c["id"]: c for c in cases}
     viols = []
     for cid, v in prints(j, "VIOL"):
@@ -126,10 +104,10 @@ def run(ctx, cases_override=None, confirm_pass=False):
         "exhaustive": bool(thorough and cases_override is None),
         "cases": len(cases), "failed_over_cases": contacted2,
         "model_states": sum(r["distinct"] or 0 for r in mc_runs), "model_level_leads": leads,
-        "drift_records": len(drift), "impl_variant": variant, "transient_unreproduced": transient,
+        "drift_records": len(drift), "transient_unreproduced": transient,
     }
     return vlib.conclude(ctx, viols, "fault_enumeration", cov, [
-        "TLC model-checks the impl-shaped failover loops and error classification against the documented contract for all 10^4 listed cases",
+        "TLC model-checks the impl-shaped failover loops and error classification against the documented contract for all 13 310 cases",
         "fake listeners: refused = bound, never listening port (its attempts cannot be counted), timeout = handler outlives the client deadline "
         "(timeout 900ms + 1s), truncated = hijacked connection closed mid-body",
         "truncated body and 500 with JSON errorType=execution are ambiguous in the statement: failing over and returning as is are both accepted",
